@@ -303,3 +303,40 @@ pub fn pure_stretch(spec: &KsfSpec, input: &[u8]) -> Option<Vec<u8>> {
         KsfSpec::FailAt(_, _) => None,
     }
 }
+
+/// A zero-sized, non-identity KSF type (a unit struct with fixed parameters, as an
+/// application might define): behaves like `H(ZST_FAMILY)`, journalled.
+#[derive(Default, Clone, Copy, Debug)]
+pub struct ZstKsf;
+pub const ZST_FAMILY: u8 = 9;
+
+impl Ksf for ZstKsf {
+    fn hash<L: ArrayLength<u8>>(
+        &self,
+        input: GenericArray<u8, L>,
+    ) -> Result<GenericArray<u8, L>, InternalError> {
+        let call_no = journal_len() as u32 + 1;
+        let inp = input.to_vec();
+        let spec = KsfSpec::H(ZST_FAMILY);
+        let out = eval(&spec, input, call_no);
+        JOURNAL.with(|j| {
+            j.borrow_mut().push(KsfCall {
+                tag: DEFAULT_TAG,
+                spec,
+                input: inp,
+                output: out.as_ref().ok().map(|o| o.to_vec()),
+            })
+        });
+        out
+    }
+}
+
+impl KsfBuild for ZstKsf {
+    fn build(_tag: u32, spec: &KsfSpec) -> Option<Self> {
+        matches!(spec, KsfSpec::H(ZST_FAMILY)).then_some(ZstKsf)
+    }
+    fn default_equiv() -> KsfSpec {
+        KsfSpec::H(ZST_FAMILY)
+    }
+    const JOURNALLED: bool = true;
+}
